@@ -165,7 +165,7 @@ Poll(s) ==
   /\ IF P(s).ljs.ids = {}
        THEN Set(s, [P(s) EXCEPT !.pc = "glob", !.act = {}]) /\ Feed(<<"Poll", s, Cardinality(P(s).ljs.ids)>>, <<>>)
        ELSE /\ Set(s, [P(s) EXCEPT !.pc = "glob", !.act = {b \in P(s).ljs.ids : hs[b] \in {"pending", "running"}}])
-            /\ Feed(<<"Poll", s, Cardinality(P(s).ljs.ids)>>, <<[e |-> "squeue", ok |-> TRUE]>>)
+            /\ Feed(<<"Poll", s, Cardinality(P(s).ljs.ids)>>, <<[e |-> "squeue", ok |-> TRUE, pid |-> P(s).pid]>>)
   /\ UNCHANGED <<S, cfg, js, marker, bfile, hs, nodeFile, processed, jp, npid, nuser, ended>>
 
 \* ---------------------------------------------------------------- R4 collection
